@@ -56,7 +56,9 @@ def desc_st():
         lambda ws: (u"= " + u" ".join(ws)).strip()), min_size=0, max_size=2)
 
 
-CELLS = [u"", u"a", u"b c", u"1", u"x|y", u"|", u"ü", u"<col>", u"a  b", u"#c", u"@t", u"'''", u"-", u"a|b|c"]
+CELLS = [u"", u"a", u"b c", u"1", u"x|y", u"|", u"ü", u"<col>", u"a  b", u"#c", u"@t", u"'''", u"-", u"a|b|c",
+         # backslashes that do not precede a pipe are ordinary characters (Windows paths, regular expressions)
+         u"C:\\new\\notes.txt", u"\\\\server\\share", u"\\d+\\n"]
 
 
 @st.composite
@@ -578,6 +580,13 @@ def check_partial(res, case):
         tags = parser.parse_tags(part)
         c = Cmp(res, "parse_tags")
         c.eq("tags", [str(t) for t in tags], [t for t, _ in tag_facts], "tags")
+        c.eq("tag lines", [getattr(t, "line", None) for t in tags], [ln - first + 1 for _t, ln in tag_facts], "line.tag")
+        # the same text inside an indented triple-quoted block: blank lines before the first tag line count as lines
+        lead = 1 + len(tag_facts) % 3
+        tags2 = parser.parse_tags(u"\n" * (lead - 1) + u"   \n" + part)
+        c.eq("tags after leading blank lines", [str(t) for t in tags2], [t for t, _ in tag_facts], "tags")
+        c.eq("tag lines after %d leading blank lines" % lead, [getattr(t, "line", None) for t in tags2],
+             [ln - first + 1 + lead for _t, ln in tag_facts], "line.tag")
         return
     item_facts = facts["items"][0] if facts["items"] else None
     if item_facts is None:
